@@ -28,6 +28,10 @@ type Dialogue struct {
 	User       string         `json:"user"`
 	Password   string         `json:"password"`
 	Passphrase string         `json:"passphrase,omitempty"`
+	// KeyPath: the session is configured with a private key (ssh type). User, Password and Passphrase
+	// may each be empty: the credential is not configured (a client asked for it can only send an
+	// empty line).
+	KeyPath string `json:"key_path,omitempty"`
 	Steps      []Step         `json:"steps"`
 	NL         string         `json:"nl"`
 	EchoUser   bool           `json:"echo_user,omitempty"`
@@ -229,6 +233,87 @@ func (d *Dialogue) spec(kind string) *regexp.Regexp {
 	return r
 }
 
+// credConfigs lists the credential configurations of an auth type. The first is the full one.
+func credConfigs(auth string) []string {
+	if auth == "telnet" {
+		return []string{"user+password", "password-only", "nothing"}
+	}
+	return []string{"password+passphrase", "password-only", "key+password", "key+passphrase", "key-only", "nothing"}
+}
+
+// applyCredConfig blanks the credentials a configuration does not have (the dialogue comes with all
+// of them set) and sets the key path.
+func applyCredConfig(d *Dialogue, cfg string) {
+	switch cfg {
+	case "password-only":
+		d.Passphrase = ""
+		if d.Auth == "telnet" {
+			d.User = ""
+		}
+	case "key+password":
+		d.KeyPath, d.Passphrase = "/home/c10/.ssh/id_ed25519", ""
+	case "key+passphrase":
+		d.KeyPath, d.Password = "/home/c10/.ssh/id_ed25519", ""
+	case "key-only":
+		d.KeyPath, d.Password, d.Passphrase = "/home/c10/.ssh/id_ed25519", "", ""
+	case "nothing":
+		d.User, d.Password, d.Passphrase = "", "", ""
+	}
+}
+
+// CredConfig names the credential configuration of a dialogue.
+func (d *Dialogue) CredConfig() string {
+	var parts []string
+	if d.User != "" && d.Auth == "telnet" {
+		parts = append(parts, "user")
+	}
+	if d.KeyPath != "" {
+		parts = append(parts, "key")
+	}
+	if d.Password != "" {
+		parts = append(parts, "password")
+	}
+	if d.Passphrase != "" {
+		parts = append(parts, "passphrase")
+	}
+	if len(parts) == 0 {
+		return "nothing"
+	}
+	return strings.Join(parts, "+")
+}
+
+// SSHArgs are the ssh arguments the transport model reports for this dialogue.
+func (d *Dialogue) SSHArgs() *transport.SSHArgs {
+	return &transport.SSHArgs{PrivateKeyPath: d.KeyPath, PrivateKeyPassPhrase: d.Passphrase}
+}
+
+// credentialWords: a line that contains a credential word and ends in a colon without being a
+// prompt (the default patterns want the colon right after the word).
+var credentialWordLines = []string{
+	"Password policy: minimum 12 characters, questions to the noc, contact:",
+	"Your password expires in 3 days; renew it at:",
+	"passwords are rotated every 90 days by:",
+	"username and password reminders go to:",
+	"Lost your Password? Ask the operator on duty:",
+	"login banner maintained by:",
+	"username policy - see:",
+	"passphrase for the backup key is kept by:",
+}
+
+// HasCredentialWordLines reports whether a banner of the dialogue has such a line.
+func HasCredentialWordLines(d *Dialogue) bool {
+	for _, s := range d.Steps {
+		for _, l := range s.Lines {
+			for _, c := range credentialWordLines {
+				if strings.EqualFold(l.S, c) {
+					return true
+				}
+			}
+		}
+	}
+	return false
+}
+
 // HasCustomPatterns reports whether the session is configured with a custom credential pattern.
 func (d *Dialogue) HasCustomPatterns() bool {
 	return d.UserPat != "" || d.PassPat != "" || d.PhrasePat != ""
@@ -324,6 +409,9 @@ func candidateLine(r *rand.Rand, fam string, d *Dialogue) string {
 	}
 	if r.Intn(4) == 0 {
 		return tricky[r.Intn(len(tricky))]
+	}
+	if r.Intn(8) == 0 {
+		return mangleCase(r, credentialWordLines[r.Intn(len(credentialWordLines))])
 	}
 	var fixed []string
 	switch fam {
@@ -563,6 +651,7 @@ func GenDialogue(r *rand.Rand, o GenOpts) (Dialogue, GenStats) {
 	if d.Auth == "ssh" {
 		d.Passphrase = "ph" + randStr(r, secretAlpha, 4+r.Intn(10))
 	}
+	applyCredConfig(&d, credConfigs(d.Auth)[[]int{0, 0, 0, 0, 0, 0, 0, 1, 2, 3, 4, 5}[r.Intn(12)]%len(credConfigs(d.Auth))])
 	d.NL = []string{"\r\n", "\r\n", "\n"}[r.Intn(3)]
 	d.EchoUser = d.Auth == "telnet" && r.Intn(10) < 7
 
@@ -909,6 +998,61 @@ func Sweep(r *rand.Rand) []Dialogue {
 			out = append(out, d)
 		}
 	}
+	// credential configurations x device plans
+	for _, auth := range []string{"telnet", "ssh"} {
+		for _, cfg := range credConfigs(auth) {
+			var plans [][]Step
+			mk := func(auth string, d *Dialogue) [][]Step {
+				u := Step{Kind: KUser, Text: "Username: "}
+				pw := Step{Kind: KPassword, Text: "Password: "}
+				k := Step{Kind: KPassphrase, Text: "Enter passphrase for key '/home/c10/.ssh/id_ed25519': "}
+				rej := Step{Kind: KBanner, Lines: []Line{{S: "Access denied"}}}
+				quiet := []Step{{Kind: KBanner, Lines: []Line{{S: "please wait"}}}, {Kind: KSilence}}
+				f := final(d)
+				if auth == "telnet" {
+					return [][]Step{{f}, {u, pw, f}, {u, pw, rej, u, pw, f}, {u, pw, rej, u, pw, rej, u, pw, f}, {pw, pw, pw, f}, quiet}
+				}
+				pw.Text = d.User + "@" + d.Host + "'s password: "
+				refused := Step{Kind: KSSHErr, Text: d.User + "@" + d.Host + ": Permission denied (publickey)."}
+				return [][]Step{{f}, {pw, f}, {pw, rej, pw, f}, {pw, pw, pw, f}, {k, f}, {k, k, k, f}, {k, pw, f}, {refused}, quiet}
+			}
+			probe := base(auth, "generic")
+			plans = mk(auth, &probe)
+			for pi := range plans {
+				drv := drivers[n%3]
+				if auth == "telnet" {
+					drv = drivers[n%2]
+				}
+				n++
+				d := base(auth, drv)
+				d.Steps = mk(auth, &d)[pi]
+				applyCredConfig(&d, cfg)
+				Finish(&d)
+				out = append(out, d)
+			}
+		}
+	}
+	// post-login lines that contain a credential word and end in a colon, cut small
+	for _, auth := range []string{"telnet", "ssh"} {
+		for k := 0; k < 4; k++ {
+			d := base(auth, []string{"generic", "network"}[n%2])
+			n++
+			if auth == "telnet" {
+				d.Steps = []Step{{Kind: KUser, Text: "Username: "}, {Kind: KPassword, Text: "Password: "}}
+			} else {
+				d.Steps = []Step{{Kind: KPassword, Text: d.User + "@" + d.Host + "'s password: "}}
+			}
+			var lines []Line
+			for j := 0; j < 3; j++ {
+				lines = append(lines, Line{S: mangleCase(r, credentialWordLines[(k*3+j)%len(credentialWordLines)])}, Line{S: "uptime 12 days, load: 0.10 0.08 0.01"})
+			}
+			d.Steps = append(d.Steps, Step{Kind: KBanner, Lines: lines}, Step{Kind: KShell})
+			d.Seg.Mode, d.Seg.Size = []string{"fixed", "geom"}[k%2], []int{7, 16, 3, 100}[k]
+			d.FirstOp = []string{"getprompt", "sendcommand", "readall", "getprompt"}[k]
+			Finish(&d)
+			out = append(out, d)
+		}
+	}
 	for _, kind := range []string{KUser, KPassword, KPassphrase} {
 		for _, auth := range []string{"telnet", "ssh"} {
 			if kind == KUser && auth == "ssh" || kind == KPassphrase && auth == "telnet" {
@@ -1044,10 +1188,10 @@ func Analyse(d *Dialogue) *Analysis {
 		if step >= a.Decisive {
 			break
 		}
-		cred := d.credential(st)
-		if cred == "" {
+		if st != StWantUser && st != StWantPass && st != StWantPhrase {
 			break
 		}
+		cred := d.credential(st)
 		off, end := dev.StepOff[step], dev.StepEnd[step]
 		a.LastCred = [2]int{off + firstMatch(d.Steps[step], d), end}
 		conn.Write([]byte(cred))
